@@ -257,7 +257,12 @@ pub fn dispatch(inp: &Value) -> R<Value> {
     let proto = field(inp, "proto")?.as_str().ok_or("proto")?;
     let variant = field(inp, "variant")?.as_str().ok_or("variant")?;
     let mk = || Log { calls: vec![], fail };
-    let (a, b) = if proto == "ctap2" {
+    let (a, b) = if proto == "ctap2-vendor" {
+        // a vendor request constructed directly from its code (not through the decoder)
+        let op = ctap2::VendorOperation::try_from(wire[0]).map_err(|_| "not a vendor code")?;
+        let req = ctap2::Request::Vendor(op);
+        (run2(&mut FullAuth(mk()), |a| &mut a.0, &req, false), run2(&mut FullAuth(mk()), |a| &mut a.0, &req, true))
+    } else if proto == "ctap2" {
         let req = ctap2::Request::deserialize(&wire).map_err(|e| format!("dispatch vector does not decode: {:?}", e))?;
         let mut bw = Borrow::new(&wire);
         let (cmd, _, _) = proj::request(&req, &mut bw);
